@@ -573,6 +573,27 @@ def run(F, R):
             if seen9:
                 R.check(bad9 is None, 'X3', '%s:disconnect-closes-drained-connection' % b['id'], where, 'drained connection removed on disconnect; reset only for the compared reason (%d paths)' % seen9,
                         'peer disconnect handling: %s' % bad9)
+        # a reset sent for a looked-up connection ends it: on every successful path of a public operation on which the driver's
+        # force_close (RST) is emitted, the connection's table entry is removed afterwards - otherwise the closed connection stays
+        # "established" and later operations on it do not return NotConnected
+        if b['kind'] == 'AssocFn' and b.get('pub') and not back_edges(sg) and any(True for _ in sg.calls(lambda d: d.get('fn') in sock_ops and sock_ops[d['fn']] == 'force_close')):
+            try:
+                pths = [p_ for p_ in PathEnum(sg).run() if not p_.panicked and err_variant(p_.ret) == 'Ok']
+            except PathLimit:
+                pths = []
+            bad10 = None
+            seen10 = 0
+            for p_ in pths:
+                seq = ['fc' if sock_ops.get(e_[2]) == 'force_close' else 'rm' for e_ in p_.effects if e_[0] == 'call' and (
+                    sock_ops.get(e_[2]) == 'force_close' or (e_[2].startswith('alloc::vec::Vec::') and e_[2].rsplit('::', 1)[1] in ('swap_remove', 'remove', 'retain')))]
+                if 'fc' not in seq:
+                    continue
+                seen10 += 1
+                if 'rm' not in seq[seq.index('fc'):]:
+                    bad10 = 'a successful path sends the reset but leaves the connection in the table'
+            if seen10:
+                R.check(bad10 is None, 'X3', '%s:reset-removes-connection' % b['id'], where, 'every successful path that resets a connection removes its entry (%d paths)' % seen10,
+                        '%s: %s' % (b['name'], bad10))
         # X2 lookups first
         if b.get('pub') and 'VsockAddr' in b.get('sig', '') and ems:
             n_ops += 1
